@@ -80,16 +80,16 @@ def expected_result(fe, kind, latency_ms):
 
 
 # ---- strict decoding of the command Interest -----------------------------------------------------------------------------
-def check_command(r, fe, wire, op, prefix, last_ts):
+def check_command(r, fe, wire, op, prefix, last_ts, local=True):
     try:
         si = P.strict_interest(wire)
     except T.Malformed as e:
         r.bad(f'C17/{fe}/command-malformed', f'{e} {wire.hex()[:120]}')
         return None
     name = si['name']
-    head = [net.comp('localhost'), net.comp('nfd'), net.comp('rib'), net.comp(op)]
+    head = [net.comp('localhost' if local else 'localhop'), net.comp('nfd'), net.comp('rib'), net.comp(op)]
     if name[:4] != head or len(name) < 5:
-        r.bad(f'C17/{fe}/command-name', f'{[c.hex() for c in name[:5]]}')
+        r.bad(f'C17/{fe}/command-name/{"local" if local else "non-local"}-face', f'{[bytes(c[2:]) for c in name[:4]]}')
         return None
     cpc = name[4]
     el = T.read_tlv(cpc, 0, len(cpc))
@@ -152,7 +152,7 @@ def check_command(r, fe, wire, op, prefix, last_ts):
 def run_case(case):
     r = Result()
     fe = case['frontend']
-    sim = AppSim(fe, registerer=NfdRegister() if fe == 'v2' else None)
+    sim = AppSim(fe, registerer=NfdRegister() if fe == 'v2' else None, local=case.get('local', True))
     try:
         _run(sim, fe, case, r)
     finally:
@@ -180,7 +180,7 @@ def _run(sim, fe, case, r):
         except T.Malformed:
             r.bad(f'C17/{fe}/command-malformed', w.hex()[:100])
             return
-        if nm[:3] != [net.comp('localhost'), net.comp('nfd'), net.comp('rib')]:
+        if nm[1:3] != [net.comp('nfd'), net.comp('rib')] or nm[0] not in (net.comp('localhost'), net.comp('localhop')):
             return
         op = bytes(nm[3][2:]).decode()
         idx = state['n_cmd']
@@ -196,7 +196,7 @@ def _run(sim, fe, case, r):
             state['outstanding'] -= 1
             return
         call['_seen'] = True
-        res = check_command(r, fe, w, op, S.name_comps(call['prefix']), state['last_ts'])
+        res = check_command(r, fe, w, op, S.name_comps(call['prefix']), state['last_ts'], local=case.get('local', True))
         if res is None:
             state['outstanding'] -= 1
             return
@@ -300,7 +300,7 @@ def _call(fe):
 
 
 def _case(fe):
-    return st.fixed_dictionaries({'frontend': st.just(fe),
+    return st.fixed_dictionaries({'frontend': st.just(fe), 'local': st.sampled_from([True, True, False]),
                                   'calls': st.lists(_call(fe), min_size=1, max_size=6,
                                                     unique_by=lambda c: str(c['prefix']))})
 
@@ -313,6 +313,9 @@ def _grid(tier):
                     yield {'frontend': fe, 'calls': [{'op': op, 'prefix': [[8, '61'], [8, '62']], 'reply': reply, 'latency': lat,
                                                       'with_func': True}]}
         # concurrency at the same clock reading
+        for local in (False, True, False):
+            yield {'frontend': fe, 'local': local, 'calls': [{'op': 'register', 'prefix': [[8, '6c']], 'reply': 'ok-body', 'latency': 0,
+                                                               'with_func': False}]}
         for n in (2, 4, 6):
             yield {'frontend': fe, 'calls': [{'op': 'register', 'prefix': [[8, '70'], [8, bytes([0x30 + i]).hex()]], 'reply': 'ok-body',
                                              'latency': 0, 'with_func': False} for i in range(n)]}
